@@ -639,6 +639,13 @@ def _fixtures(family: str):
     out.append([conv('n0', 'x', 2), conv('n1', 'x', 3), cat('n2', ['n0', 'n1']),
                 conv('n3', 'x', 2), cat('n4', ['n3', 'n0']), cat('n5', ['n2', 'n4']),
                 conv('n6', 'n5', 3)])
+    # a small MLP head: hidden Linear layers (with bias) whose outputs can be pruned
+    lin = lambda i, src, cout, **kw: dict({'id': i, 'op': 'linear', 'in': [src], 'cout': cout,   # noqa
+                                           'bias': True, 'bn': False}, **kw)
+    out.append([conv('n0', 'x', 3), relu('n1', 'n0'),
+                {'id': 'n2', 'op': 'flatten', 'in': ['n1'], 'variant': 'mod'},
+                lin('n3', 'n2', 6), relu('n4', 'n3'), lin('n5', 'n4', 5, bn=True), relu('n6', 'n5'),
+                lin('n7', 'n6', 2)])
     return [{'family': family, 'inputs': inp, 'nodes': nodes, 'out': nodes[-1]['id']}
             for nodes in out]
 
